@@ -502,7 +502,7 @@ func raceSignature(s string) string {
 	for _, l := range strings.Split(s, "\n") {
 		l = strings.TrimSpace(l)
 		if strings.HasPrefix(l, "github.com/piotrnar/gocoin/") && strings.Contains(l, "(") {
-			f := l[len("github.com/piotrnar/gocoin/"):strings.Index(l, "(")]
+			f := l[len("github.com/piotrnar/gocoin/"):strings.LastIndex(l, "(")]
 			if len(fn) == 0 || fn[len(fn)-1] != f {
 				fn = append(fn, f)
 			}
